@@ -1,5 +1,5 @@
 """Property registry: id -> configuration (which machinery decides it)."""
-from . import runtime_check, props_h1, mid_check
+from . import runtime_check, props_h1, mid_check, conc_check
 from .h1 import P
 from .props_h1 import *
 
@@ -54,5 +54,6 @@ PROPS = {
                   [("budget", 6000, 200000), ("memo", 1000, 30000)], oracles=[orc_c16], phase2=phase2_c16),
     "C17": h1prop("PigeonVerif.Properties.C17", P(["val", "errs", "pos", "trace_ctx"]),
                   [("utf8", 6000, 200000)], oracles=[orc_c17]),
+    "C18": dict(module="PigeonVerif.Properties.C18", run=conc_check.run_c18, level="other"),
     "C19": dict(module="PigeonVerif.Properties.C19", run=mid_check.run_c19, level="proof"),
 }
